@@ -1,6 +1,6 @@
 (* Proofs about model/DatadogJson.v: tags written k1:v1,k2:v2,... are found by the scan as exactly that list. *)
 From Coq Require Import List ZArith NArith Bool Ascii String Lia.
-From Qryn Require Import gen.DecodeConsts model.Decode model.LokiLabels model.LokiTime model.LokiJson model.DatadogJson proofs.LokiLabelsProofs.
+From Qryn Require Import gen.DecodeConsts model.Decode model.LokiLabels model.LokiTime model.LokiJson model.DatadogJson proofs.LokiLabelsProofs proofs.LokiJsonProofs.
 Import ListNotations.
 Open Scope N_scope.
 
@@ -118,3 +118,33 @@ Section FIND.
     intros ts H. unfold dd_tags. apply find_tags_written; [exact H|]. pose proof (print_tags_length ts). lia.
   Qed.
 End FIND.
+
+Open Scope Z_scope.
+(* a log object as a client writes it *)
+Record wlog := WL { wl_tags : labels; wl_source : option string; wl_service : option string; wl_host : option string;
+                    wl_stype : option string; wl_msg : string; wl_ts : Z; wl_bits : N }.
+Definition omember (k : string) (o : option string) : list (string * jv) :=
+  match o with Some s => [(k, JStr s)] | None => [] end.
+Definition wlog_doc (w : wlog) : jv :=
+  JObj ([("ddtags"%string, JStr (print_tags (wl_tags w)))] ++ omember "ddsource" (wl_source w) ++ omember "service" (wl_service w)
+        ++ omember "hostname" (wl_host w) ++ omember "source_type" (wl_stype w)
+        ++ [("message"%string, JStr (wl_msg w)); ("status"%string, JStr "info"); ("timestamp"%string, JNum (wl_bits w) (Some (wl_ts w)))]).
+Definition onorm (o : option string) : option string := some_if_nonempty (opt_str o).
+Definition wlog_ddlog (w : wlog) : ddlog :=
+  DL (wl_tags w) (onorm (wl_source w)) (onorm (wl_service w)) (onorm (wl_host w)) (onorm (wl_stype w)) (wl_msg w) (wl_ts w).
+
+Lemma dd_entry_written : forall uletter w, forallb tag_ok (wl_tags w) = true ->
+  dd_entry uletter dd_int_of (wlog_doc w) = Some (wlog_ddlog w).
+Proof.
+  intros uletter [tags src svc host st msg ts bits] H. cbn [wl_tags] in H.
+  unfold dd_entry, wlog_doc, wlog_ddlog, onorm. cbn [wl_tags wl_source wl_service wl_host wl_stype wl_msg wl_ts wl_bits].
+  destruct src as [s1|], svc as [s2|], host as [s3|], st as [s4|]; cbn -[dd_tags print_tags]; rewrite (dd_tags_written_l uletter tags H); reflexivity.
+Qed.
+
+Lemma dd_document_written_l : forall uletter ws, Forall (fun w => forallb tag_ok (wl_tags w) = true) ws ->
+  dd_document uletter dd_int_of (JArr (map wlog_doc ws)) = Some (map wlog_ddlog ws).
+Proof.
+  intros uletter ws H. unfold dd_document.
+  apply (all_some_map _ _ _ (dd_entry uletter dd_int_of) wlog_doc wlog_ddlog).
+  intros w Hw. apply dd_entry_written. rewrite Forall_forall in H. exact (H w Hw).
+Qed.
